@@ -39,6 +39,9 @@ func kvI(w []string, k string) int64 {
 }
 
 func exec(c proto.Case, o *proto.Out) []string {
+	if len(c.Ops) > 0 && strings.HasPrefix(c.Ops[0], "wcfg ") {
+		return execWiring(c, o) // level 2, wiring.go
+	}
 	outs := make([]string, len(c.Ops))
 	var cfg failsafe.Config
 	var t0 int64
@@ -167,6 +170,11 @@ func gen(r *prng.R, f proto.Flags, emit func(proto.Case)) {
 	}
 }
 
+func genAll(r *prng.R, f proto.Flags, emit func(proto.Case)) {
+	gen(r, f, emit)
+	genWiring(r, f, emit) // level 2, wiringgen.go
+}
+
 func b2i(b bool) int {
 	if b {
 		return 1
@@ -175,5 +183,6 @@ func b2i(b bool) int {
 }
 
 func main() {
-	proto.Main(proto.Harness{Rule: rule, Gen: gen, Exec: exec})
+	zerolog.SetGlobalLevel(zerolog.Disabled)
+	proto.Main(proto.Harness{Rule: rule + ruleWiring, Gen: genAll, Exec: exec})
 }
